@@ -17,7 +17,11 @@ pub mod c05;
 pub mod c06;
 pub mod c07;
 pub mod c08;
+pub mod c11;
+pub mod c12;
 pub mod c16;
+pub mod c17;
+pub mod c18;
 
 /// (n1, n2, m, padded N) of a statement, by symbolic execution on RefCS.
 pub fn shape_of(st: &Statement) -> (usize, usize, usize, usize) {
@@ -103,7 +107,7 @@ pub fn sample_of(case: &SessionCase) -> Value {
 
 /// checks that run in a child process under an address-space limit
 pub const ISOLATED: &[&str] = &["C08", "C11"];
-pub const ALL: &[&str] = &["C01", "C02", "C03", "C04", "C05", "C06", "C07", "C08", "C16"];
+pub const ALL: &[&str] = &["C01", "C02", "C03", "C04", "C05", "C06", "C07", "C08", "C11", "C12", "C16", "C17", "C18"];
 
 /// Case-count scaling (selftest runs a small slice of every check).
 pub fn scaled(n: u64) -> u64 {
@@ -123,7 +127,11 @@ pub fn dispatch(prop: &str, ctx: &Ctx) -> Option<i32> {
         "C06" => Some(c06::run(ctx)),
         "C07" => Some(c07::run(ctx)),
         "C08" => Some(c08::run(ctx)),
+        "C11" => Some(c11::run(ctx)),
+        "C12" => Some(c12::run(ctx)),
         "C16" => Some(c16::run(ctx)),
+        "C17" => Some(c17::run(ctx)),
+        "C18" => Some(c18::run(ctx)),
         _ => None,
     }
 }
@@ -138,7 +146,11 @@ pub fn replay(prop: &str, case: &Value) -> Option<Vec<Violation>> {
         "C06" => Some(c06::replay(case)),
         "C07" => Some(c07::replay(case)),
         "C08" => Some(c08::replay(case)),
+        "C11" => Some(c11::replay(case)),
+        "C12" => Some(c12::replay(case)),
         "C16" => Some(c16::replay(case)),
+        "C17" => Some(c17::replay(case)),
+        "C18" => Some(c18::replay(case)),
         _ => None,
     }
 }
